@@ -9,6 +9,8 @@ pub type Cost = isize;
 
 mod dd;
 mod fam;
+#[cfg(feature = "sched")]
+mod par;
 mod solve;
 mod viz;
 
@@ -175,6 +177,62 @@ fn run_solve(a: &Args, limits: &Limits, symbolic: bool, initial: &[(String, i64)
     }
 }
 
+#[cfg(feature = "sched")]
+fn run_par(a: &Args, limits: &Limits, symbolic: bool, initial: &[(String, i64)]) {
+    let gp = gen_params(a);
+    let shape = Shape::generate(&gp);
+    let rub = if a.get("rub", "none") == "hslack" { Rub::HSlack } else { Rub::None };
+    for ddname in a.list("dd", "lel").iter() {
+        for cache in a.list("cache", "0").iter() {
+            for fringe in a.list("fringe", "simple").iter() {
+                for w in a.list("width", "1").iter() {
+                    for th in a.list("threads", "2").iter() {
+                        let c = par::ParCase {
+                            shape: shape.clone(),
+                            rub: rub.clone(),
+                            nodup: fringe == "nodup",
+                            width: w.parse().unwrap(),
+                            rev_rank: a.flag("rev"),
+                            threads: th.parse().unwrap(),
+                            threads_after: a.0.get("threads_after").map(|x| x.parse().unwrap()),
+                            max_preempt: a.num("preempt", 1) as u32,
+                            map_yield: a.flag("mapyield"),
+                            mode: a.get("mode", "plain"),
+                            warm: a.num("warm", 0) as usize,
+                            kmax: a.num("kmax", 30) as i64,
+                            props: a.list("props", ""),
+                            seq_steps: a.num("max_steps", 3000),
+                        };
+                        macro_rules! go {
+                            ($d:ty) => {
+                                if cache == "1" {
+                                    explore(limits, gp.seed, symbolic, initial, &mut || par::body::<$d, SimpleCache<St>>(&c))
+                                } else {
+                                    explore(limits, gp.seed, symbolic, initial, &mut || par::body::<$d, EmptyCache<St>>(&c))
+                                }
+                            };
+                        }
+                        let rep = match ddname.as_str() {
+                            "lel" => go!(Mdd<St, { LAST_EXACT_LAYER }>),
+                            "frontier" => go!(Mdd<St, { FRONTIER }>),
+                            "pooled" => go!(Pooled<St>),
+                            x => panic!("dd={}", x),
+                        };
+                        let mut case = a.0.clone();
+                        case.insert("dd".into(), ddname.clone());
+                        case.insert("cache".into(), cache.clone());
+                        case.insert("fringe".into(), fringe.clone());
+                        case.insert("width".into(), w.clone());
+                        case.insert("threads".into(), th.clone());
+                        case.remove("inputs");
+                        emit(&case, &shape.describe(), &rep);
+                    }
+                }
+            }
+        }
+    }
+}
+
 fn main() {
     let mut m = BTreeMap::new();
     for arg in std::env::args().skip(1) {
@@ -193,6 +251,8 @@ fn main() {
     match a.get("kind", "dd").as_str() {
         "dd" => run_dd(&a, &limits, symbolic, &initial),
         "solve" => run_solve(&a, &limits, symbolic, &initial),
+        #[cfg(feature = "sched")]
+        "par" => run_par(&a, &limits, symbolic, &initial),
         "find" => {
             // list seeds start..start+count whose structure has all the wanted static features
             let wantf = a.list("features", "");
